@@ -36,6 +36,15 @@ D = datetime.datetime
 TD = datetime.timedelta
 TMIN, TMAX = D(1900, 1, 1), D(2300, 1, 1)
 SEPS = ['-', '/', '.', ' ']
+
+
+def np_int_kinds(rng, v):
+    """the kinds (python int / numpy integer types) that hold the integer v: signed of every width, and - what `is_int` admits since e030b7f -
+    np.longlong and for v >= 0 the unsigned ones"""
+    ks = ['int', 'int64', 'int32', 'int16', 'longlong'] + (['int8', 'int8'] if -128 <= v <= 127 else [])
+    if v >= 0:
+        ks += ['uint64', 'uint32', 'ulonglong'] + (['uint16', 'uint16'] if v < 2 ** 16 else []) + (['uint8', 'uint8'] if v < 2 ** 8 else [])
+    return ks
 EXHAUSTIVE = {'thorough': True}
 
 
@@ -208,18 +217,18 @@ def spellings(t, rng, full):
     out.append(('yyyymmdd-int', L('num', 'I:%d' % (t.year * 10000 + t.month * 100 + t.day)), day))
     out.append(('ordinal', L('num', 'I:%d' % t.toordinal()), day))
     # the same integers as numpy scalars (an integer read from an array / a pandas column; `is_int` admits np.int8..np.int64)
-    k = rng.choice(['int64', 'int32'])
+    k = rng.choice(['int64', 'int32', 'uint32', 'uint64', 'longlong', 'ulonglong'])      # all positive and < 2**31 (review5 w3 §2-4: the unsigned kinds too)
     out.append(('yyyymmdd-npint', L('npnum', s_(k), 'I:%d' % (t.year * 10000 + t.month * 100 + t.day)), day))
     out.append(('ordinal-npint', L('npnum', s_(k), 'I:%d' % t.toordinal()), day))
     if secs.total_seconds() % 21600 == 0:
         q = int(secs.total_seconds() // 21600)
         out.append(('ordinal-float', L('num', 'F:%d' % (4 * t.toordinal() + q)), t))
         out.append(('yyyymmdd-float', L('num', 'F:%d' % (4 * (t.year * 10000 + t.month * 100 + t.day) + q)), t))
-        out.append(('ordinal-npfloat', L('npnum', s_(rng.choice(['float64', 'float32'])), 'F:%d' % (4 * t.toordinal() + q)), t))   # < 2**22: exact in float32
-        out.append(('yyyymmdd-npfloat', L('npnum', s_('float64'), 'F:%d' % (4 * (t.year * 10000 + t.month * 100 + t.day) + q)), t))
+        out.append(('ordinal-npfloat', L('npnum', s_(rng.choice(['float64', 'float32', 'longdouble'])), 'F:%d' % (4 * t.toordinal() + q)), t))   # < 2**22: exact in float32
+        out.append(('yyyymmdd-npfloat', L('npnum', s_(rng.choice(['float64', 'longdouble'])), 'F:%d' % (4 * (t.year * 10000 + t.month * 100 + t.day) + q)), t))
     if 3000 < t.toordinal() - 693594 < 300000:
         out.append(('excel', L('num', 'I:%d' % (t.toordinal() - 693594)), day))
-        out.append(('excel-npint', L('npnum', s_(rng.choice(['int64', 'int32'])), 'I:%d' % (t.toordinal() - 693594)), day))
+        out.append(('excel-npint', L('npnum', s_(rng.choice(['int64', 'int32', 'uint32', 'uint64', 'longlong'])), 'I:%d' % (t.toordinal() - 693594)), day))
     out.append(('iso-date', L('str', rng.choice(['uk', 'us']), s_(day.strftime('%Y-%m-%d'))), day))
     out.append(('iso', L('str', rng.choice(['uk', 'us']), s_(t.isoformat())), t))
     out.append(('iso-space', L('str', rng.choice(['uk', 'us']), s_(t.isoformat(' '))), t))
@@ -391,9 +400,10 @@ def _generate(rng, tier):
                     yield dict(tag='overflow-all', lines=[L('ymd', 'I:%d' % y, 'I:%d' % m, 'I:%d' % d)])
     # ---- the parts as numpy integers (an integer read from an array is a numpy integer; review4 v3 §C04.2-2, defect C04-D7): each part a
     # python int or np.int8..int64, in the narrowest-to-widest types that hold it; months in [-36, 48], days in [-400, 400] with the int8 limits
+    # (review5 w3 §2-1/§2-4: since e030b7f `is_int` admits the unsigned kinds and np.longlong too - a value >= 0 is now and then held by one;
+    # defect C04-D8: `ym` left an unsigned YEAR in its numpy width and `y += (m-1)//12` with a month <= 0 raised OverflowError)
     def kinds_for(v):
-        ks = ['int', 'int64', 'int32', 'int16'] + (['int8', 'int8'] if -128 <= v <= 127 else [])
-        return ks
+        return np_int_kinds(rng, v)
     for _ in range(1200 if quick else 30000):
         y = rng.choice([1900, 2000, 2299, rng.randint(1900, 2299)])
         m = rng.choice(ms) if rng.random() < 0.8 else rng.choice([-36, -12, -11, 0, 1, 12, 13, 24, 48])
@@ -404,6 +414,8 @@ def _generate(rng, tier):
         inside = 1 <= m <= 12 and 1 <= d <= 28
         if rng.random() < 0.15:
             h, mi, sec = rng.randint(-30, 50), rng.randint(-70, 127), rng.randint(-100, 127)
+            if kd.startswith('u') and min(h, mi, sec) < 0:      # h, mi, s travel in the type of the day: an unsigned one holds no negative part
+                h, mi, sec = abs(h), abs(mi), abs(sec)
             yield dict(tag='overflow-hms-np', lines=[L('npymd', s_(ky), s_(km), s_(kd), 'I:%d' % y, 'I:%d' % m, 'I:%d' % d, 'I:%d' % h, 'I:%d' % mi, 'I:%d' % sec)])
         else:
             yield dict(tag='parts-np' if inside else 'overflow-np', lines=[L('npymd', s_(ky), s_(km), s_(kd), 'I:%d' % y, 'I:%d' % m, 'I:%d' % d)])
@@ -660,7 +672,7 @@ def laws(rng, tier, ctx):
         d = rng.randint(-400, 400) if rng.random() < 0.7 else rng.choice([-128, -127, 127])
         ks = []
         for v in (y, m, d):
-            ks.append(rng.choice(['int', 'int64', 'int32', 'int16'] + (['int8', 'int8'] if -128 <= v <= 127 else [])))
+            ks.append(rng.choice(np_int_kinds(rng, v)))
         parts = [v if k == 'int' else getattr(np, k)(v) for k, v in zip(ks, (y, m, d))]
         count += 1
         got, want = safe(dt, *parts), ref_overflow(y, m, d)
